@@ -1340,7 +1340,7 @@ def replay(cand):
 
 MANIFEST_ENTRY = {
     "engine": "symx+trig",
-    "technique": "bounded symbolic execution (symx/z3) of esutil.wcsutil.WCS, stage by stage, with the header (CRVAL as angles, CRPIX, CD, PV/SIP coefficients) and the positions as solver variables: sin/cos algebraised exactly (vf.trig), the arguments handed to arctan/arctan2 probed and compared with the gnomonic deprojection written out independently (polynomial normal form modulo s^2+c^2=1 and the square-root witnesses, then SMT; inequalities from generalised hypotheses); distortion polynomials compared with the TPV/SIP conventions as polynomial identities; history independence as non-interference queries (two objects, arbitrary left-overs in the scratch buffers, fit and root finder by contract); counterexamples rebuilt as concrete headers and replayed end to end against an extended-precision FITS reference",
+    "technique": "bounded symbolic execution (symx/z3) of esutil.wcsutil.WCS, stage by stage, with the header (CRVAL as angles, CRPIX, CD, PV/SIP coefficients) and the positions as solver variables: sin/cos algebraised exactly (vf.trig), the arguments handed to arctan/arctan2 probed and compared with the gnomonic deprojection written out independently (polynomial normal form modulo s^2+c^2=1 and the square-root witnesses, then SMT; inequalities from generalised hypotheses); distortion polynomials compared with the TPV/SIP conventions as polynomial identities; history independence as non-interference queries (two objects of one header with different histories, objects of different kinds alive together, arbitrary left-overs in the scratch buffers, fit and root finder by contract); the longitude wrap over z3's FloatingPoint sort (IEEE double) and a conditioning probe on the inverse trigonometric calls for the float-level clauses; counterexamples rebuilt as concrete headers and replayed end to end against an extended-precision FITS reference",
     "text": "For every reference point (off the exact poles), CD matrix, reference pixel and TPV / SIP coefficient set: image2sky hands the deprojection exactly the convention's intermediate coordinates (offset from CRPIX, CD, distortion in order; SIP before CD, TPV after), the deprojection returns the direction of centre + xi east + eta north about (CRVAL1, CRVAL2) with longitude in [0,360) and latitude in [-90,90], the reference pixel maps to CRVAL; the rotation matrix is orthogonal; sph2image is the gnomonic projection and ApplyCDMatrix(inverse) the matrix inverse, so sky2image(find=False, distort=False) inverts image2sky(distort=False); sky2image(find=False) applies the fitted inverse polynomial in reverse stage order; with root finding the solver is handed image2sky minus the target (longitude wrapped) and starts from the undistorted inverse; no flag combination raises; scalar and array inputs agree; image2sky/get_jacobian do not change the object, the first inverse call equals later ones, left-overs in the scratch buffers never reach a result.",
     "note": "algebraic level: the 1e-9 degree / 1e-6 pixel tolerances, the accuracy of the fitted inverse polynomial and the convergence of fsolve are numerical questions outside a real-arithmetic encoding (the replay measures them on concrete headers, including polar and seam reference points); the fit and the root finder are replaced by contracts",
 }
